@@ -391,3 +391,53 @@ Example C07_word_nonvacuous :
   lbuf_wordbeg (mfuel b) b false 1 0 5 = Some (false, 1, 1) /\ lbuf_wordend (mfuel b) b false (-1) 3 0 = Some (false, 2, 0) /\
   lbuf_pair (mfuel b) b 3 0 = Some (Some (3, 2)) /\ lbuf_wordbeg (mfuel b) b true 1 3 1 = Some (true, 3, 3).
 Proof. exact word_nonvacuous. Qed.
+
+(* the characterisations are complete: they determine the landing index (and, for one scan, the
+   reported status), so two scanners satisfying them agree *)
+Theorem C07_forward_scan_determined : forall stop L i j j' s s',
+  fwd_step stop L i j s -> fwd_step stop L i j' s' -> j = j' /\ s = s'.
+Proof. exact fwd_step_unique. Qed.
+Print Assumptions C07_forward_scan_determined.
+
+Theorem C07_backward_scan_determined : forall stop i j j' s s',
+  bwd_step stop i j s -> bwd_step stop i j' s' -> j = j' /\ s = s'.
+Proof. exact bwd_step_unique. Qed.
+Print Assumptions C07_backward_scan_determined.
+
+Theorem C07_word_motions_determined : forall b k n i j j', word_chain b k n i j -> word_chain b k n i j' -> j = j'.
+Proof. exact word_chain_unique. Qed.
+Print Assumptions C07_word_motions_determined.
+
+(* end to end for w W e E b B with counts: from any valid cursor of a non-empty well-formed buffer the
+   command succeeds, and the new cursor is the chain's landing position, moved off the terminator of
+   a non-empty line by ren_noeol; the remembered column is recomputed from it *)
+Theorem C07_word_motion_cursor : forall b rows a1 a2 k s,
+  buf_wf b -> b <> [] -> cursor_ok b (v_row s) (v_off s) -> word_key k = true ->
+  exists r' o' l' s', do_motion b rows a1 a2 k s = Some s' /\ getl b r' = Some l' /\ 0 <= o' < slen l' /\
+    word_chain b k (Z.to_nat (m_cnt a1 a2)) (idx b (v_row s) (v_off s)) (idx b r' o') /\
+    v_row s' = r' /\ v_off s' = ren_noeol (Some l') o' /\ v_col s' = ren_pos l' (v_off s').
+Proof. exact word_motion_cursor. Qed.
+Print Assumptions C07_word_motion_cursor.
+
+(* what the blank-line stops are, over a well-formed buffer without overlong-encoded line feeds
+   (nl_canon: a character with code point 10 is the blank byte 0x0A): for w W exactly the terminator
+   of a row of blanks (possibly empty) that begins after the cursor; for e E the same with only
+   blanks between the cursor and that row; for b B exactly the first character of a row of blanks
+   that ends before the cursor, with only blanks between it and the cursor *)
+Theorem C07_w_blank_stop_reading : forall b i r o l, buf_wf b -> nl_canon b -> 0 <= i -> getl b r = Some l -> 0 <= o < slen l ->
+  (w_blank_stop (fchr b) i (idx b r o) <-> o = slen l - 1 /\ blank_row b r /\ i < idx b r 0).
+Proof. exact w_blank_stop_reading. Qed.
+Print Assumptions C07_w_blank_stop_reading.
+
+Theorem C07_e_blank_stop_reading : forall b i r o l, buf_wf b -> nl_canon b -> 0 <= i -> getl b r = Some l -> 0 <= o < slen l ->
+  (e_blank_stop (fchr b) i (idx b r o) <->
+   o = slen l - 1 /\ blank_row b r /\ i < idx b r 0 /\ forall k, i < k < idx b r 0 -> uc_isspace (fchr b k) = true).
+Proof. exact e_blank_stop_reading. Qed.
+Print Assumptions C07_e_blank_stop_reading.
+
+Theorem C07_b_blank_stop_reading : forall b i r o l, buf_wf b -> nl_canon b -> i <= nchars b -> getl b r = Some l -> 0 <= o < slen l ->
+  (b_blank_stop (fchr b) i (idx b r o) <->
+   o = 0 /\ 1 <= r /\ blank_row b r /\ idx b r (slen l - 1) < i /\
+   forall k, idx b r 0 <= k < i -> uc_isspace (fchr b k) = true).
+Proof. exact b_blank_stop_reading. Qed.
+Print Assumptions C07_b_blank_stop_reading.
